@@ -439,9 +439,78 @@ theorem invClose_step (cfg : Cfg) (hp : cfg.ppt.clean) (ha : cfg.abortClosesSend
   all_goals (try (intro s hs))
   all_goals live_close
 
+/-- With today's code a step that ends in a crash is a send after `Close()` closed the channel: the
+    state before had the send side closed and is otherwise unchanged. -/
+theorem crash_step (cfg : Cfg) (hp : cfg.ppt.clean) (ha : cfg.abortClosesSend = false)
+    (st : State) (ev : Ev) (st' : State) (hinv : InvClose st) (h : step cfg st ev = some st')
+    (hcr : st'.crashed.isSome = true) :
+    st.sendClosed = true ∧ st' = { st with crashed := some "send on closed channel" } := by
+  obtain ⟨h1, h2⟩ := hinv
+  analyse_step
+  all_goals (try (exact absurd hpanic (postProcess_no_panic hp _ _ _ _)))
+  all_goals (try (exfalso; have hcl := eventPpt_clean hp cfg.deser d a k; rw [hpanic] at hcl; simp at hcl))
+  all_goals (try (have hscp := postProcess_sendClosed ha hpp))
+  all_goals (try (exact ⟨hscl, rfl⟩))
+  all_goals exfalso
+  all_goals live_close
+
 theorem invClose_reachable (cfg : Cfg) (hp : cfg.ppt.clean) (ha : cfg.abortClosesSend = false)
     (st : State) (h : Reachable cfg st) : InvClose st :=
   reachable_invariant cfg InvClose invClose_init (invClose_step cfg hp ha) st h
+
+/-- A crashed client takes no further step: a crash is the last event of a run. -/
+theorem steps_crashed (cfg : Cfg) (st : State) (evs : List Ev) (st' : State) (hc : st.crashed.isSome = true)
+    (h : steps cfg st evs = some st') : evs = [] ∧ st' = st := by
+  cases evs with
+  | nil => simp [steps] at h; exact ⟨rfl, h.symm⟩
+  | cons e es => simp [steps, step, hc] at h
+
+/-- Split a run that ends crashed at the crashing event. -/
+theorem crash_split (cfg : Cfg) (evs : List Ev) (st0 st : State) (h0 : st0.crashed = none)
+    (h : steps cfg st0 evs = some st) (hc : st.crashed.isSome = true) :
+    ∃ pre ev st1, evs = pre ++ [ev] ∧ steps cfg st0 pre = some st1 ∧ st1.crashed = none ∧ step cfg st1 ev = some st := by
+  induction evs generalizing st0 with
+  | nil => simp [steps] at h; subst h; simp [h0] at hc
+  | cons e es ih =>
+    simp only [steps] at h
+    cases hs : step cfg st0 e with
+    | none => simp [hs] at h
+    | some s1 =>
+      rw [hs] at h
+      simp only [Option.bind_some] at h
+      cases hc1 : s1.crashed with
+      | some x =>
+        obtain ⟨he, hst⟩ := steps_crashed cfg s1 es st (by simp [hc1]) h
+        subst he; subst hst
+        exact ⟨[], e, st0, rfl, rfl, h0, hs⟩
+      | none =>
+        obtain ⟨pre, ev, st1, he, hp, hc', hst⟩ := ih s1 hc1 h
+        exact ⟨e :: pre, ev, st1, by simp [he], by simp [steps, hs, hp], hc', hst⟩
+
+/-- A send after `Close()` closed the channel panics (whichever goroutine it is). -/
+theorem send_after_close_panics (cfg : Cfg) (st st2 : State) (ev : Ev) (hc : st.crashed = none)
+    (hsc : st.sendClosed = true) (h : stepCore cfg st ev = some st2) (hs : sentSomething st st2 = true) :
+    step cfg st ev = some { st with crashed := some "send on closed channel" } := by
+  simp [step, hc, h, hsc, hs]
+
+/-- F43, delimited: a run of today's client ends in a panic IF AND ONLY IF its last event was taken
+    in an uncrashed state in which `Close()` had returned (and closed the send channel), and that
+    event is a panicking send — nothing else changes in the state. -/
+theorem crash_iff (cfg : Cfg) (hp : cfg.ppt.clean) (ha : cfg.abortClosesSend = false)
+    (evs : List Ev) (st : State) (h : steps cfg {} evs = some st) :
+    st.crashed.isSome = true ↔
+    ∃ pre ev st1, evs = pre ++ [ev] ∧ steps cfg {} pre = some st1 ∧ st1.crashed = none ∧
+      st1.close = .returned ∧ st1.sendClosed = true ∧
+      step cfg st1 ev = some { st1 with crashed := some "send on closed channel" } ∧
+      st = { st1 with crashed := some "send on closed channel" } := by
+  constructor
+  · intro hc
+    obtain ⟨pre, ev, st1, he, hpre, hc1, hst⟩ := crash_split cfg evs {} st rfl h hc
+    have hi := invClose_reachable cfg hp ha st1 ⟨pre, hpre⟩
+    obtain ⟨hsc, heq⟩ := crash_step cfg hp ha st1 ev st hi hst hc
+    exact ⟨pre, ev, st1, he, hpre, hc1, hi.1 hsc, hsc, heq ▸ hst, heq⟩
+  · rintro ⟨pre, ev, st1, _, _, _, _, _, _, rfl⟩
+    rfl
 
 /-- From every reachable state in which nothing has crashed and the loop is not stuck for good,
     some continuation lets Close() return (the application's handlers return, the workers finish). -/
